@@ -17,6 +17,17 @@ var props = map[string]func(*hx.Ctx){}
 
 func register(id string, f func(*hx.Ctx)) { props[id] = f }
 
+// extras: further case families of a property kept in their own files (run after the property's main function,
+// in registration-name order, on the same context)
+var extras = map[string]map[string]func(*hx.Ctx){}
+
+func registerExtra(id, name string, f func(*hx.Ctx)) {
+	if extras[id] == nil {
+		extras[id] = map[string]func(*hx.Ctx){}
+	}
+	extras[id][name] = f
+}
+
 func main() {
 	if len(os.Args) < 2 {
 		fmt.Fprintln(os.Stderr, "usage: vharness <prop> [-seed N] [-tier quick|thorough] [-out DIR]")
@@ -50,5 +61,13 @@ func main() {
 	}
 	c := hx.NewCtx(id, *seed, *tier, *out)
 	f(c)
+	names := []string{}
+	for n := range extras[id] {
+		names = append(names, n)
+	}
+	sort.Strings(names)
+	for _, n := range names {
+		extras[id][n](c)
+	}
 	c.Close()
 }
